@@ -132,6 +132,17 @@ func C20(tier string) int {
 			addQ(pred+"sort by "+strings.Join(parts, ", ")+" skip 1 limit 2", syms)
 		}
 	}
+	// predicates whose value does not depend on the subject (reversed or equal bounds, empty intersections) still reference it
+	addQ(`i between 6 and 4`, []string{"i"})
+	addQ(`i not between 6 and 4`, []string{"i"})
+	addQ(`f between 5 and 5`, []string{"f"})
+	addQ(`count(roles) between 9 and 1`, []string{"roles"})
+	addQ(`count(from reports where s = "a") not between 9 and 1`, []string{"reports", "s"})
+	addQ(`anyOf(reports.i) between 6 and 4 or b`, []string{"reports.i", "b"})
+	addQ(`t between datetime(2021-06-07T08:09:10Z) and datetime(2020-01-02T03:04:05Z)`, []string{"t"})
+	addQ(`i > 5 and i < 4`, []string{"i"})
+	addQ(`true or s = "a"`, []string{"s"})
+	addQ(`false and nn = 4`, []string{"nn"})
 	// sort fields of sub-queries are referenced symbols too
 	addQ(`count(from reports where s = "a" sort by i) > 0`, []string{"reports", "s", "i"})
 	addQ(`isEmpty(from reports where true sort by t desc skip 1)`, []string{"reports", "t"})
